@@ -12,7 +12,9 @@ import sys, os, json, subprocess, shutil, time
 
 ROOT = os.path.dirname(os.path.dirname(os.path.abspath(__file__)))
 REPO = os.environ.get('VERIF_REPO') or os.path.normpath(os.path.join(ROOT, '..', 'repo'))
-ENV = dict(os.environ, CARGO_NET_OFFLINE='true', CARGO_TARGET_DIR='/tmp/seedcheck/target')
+UNIVERSE = os.path.basename(os.path.dirname(ROOT)) or 'main'
+ENV = dict(os.environ, CARGO_NET_OFFLINE='true', CARGO_TARGET_DIR='/tmp/seedcheck/target-' + UNIVERSE)
+
 
 
 def sh(cmd, cwd=None, timeout=3600, env=ENV):
@@ -37,7 +39,7 @@ def main():
         res.update({k: v for k, v in old.items() if k.startswith(('demo_', 'suite_', 'apply_', 'confirmed'))})
     if not skip:
         os.makedirs('/tmp/seedcheck', exist_ok=True)
-        wt = f'/tmp/seedcheck/wt-{os.getpid()}'
+        wt = f'/tmp/seedcheck/wt-{UNIVERSE}-{os.getpid()}'
         sh(['git', '-C', REPO, 'worktree', 'add', '-q', '--detach', wt, 'HEAD'])
         try:
             rc, out = sh(['git', 'apply', patch], cwd=wt)
